@@ -329,6 +329,9 @@ func (bc *BoundsAnalyzer) feasibleAlternatives(
 		if err != nil {
 			return nil, nil, err
 		}
+		if len(relTypeArgs) != len(args) {
+			return nil, nil, fmt.Errorf("pred %v has type %v but is used with %d arguments", pred, alternative, len(args))
+		}
 		for i, arg := range args {
 			v, isVar := arg.(ast.Variable)
 			if !isVar {
